@@ -1,4 +1,5 @@
 Require Extraction.
 Require Import ExtrOcamlBasic.
-From LV Require Import Model.CuckooSeq.
-Extraction "c17model.ml" CuckooSeq.run_case CuckooSeq.resize CuckooSeq.insert CuckooSeq.cfind CuckooSeq.init CuckooSeq.h_tab.
+From LV Require Import Model.CuckooSeq Model.StripedSeq.
+Extraction "c17model.ml" CuckooSeq.run_case CuckooSeq.resize CuckooSeq.insert CuckooSeq.cfind CuckooSeq.init CuckooSeq.h_tab
+  StripedSeq.s_run_case.
